@@ -358,49 +358,250 @@ def nontrivial(cfg, trace):
     return None
 
 
+# ---------------------------------------------------------------- allocation / work probe (in a child process)
+#
+# "a declared attachment count or id never makes the server reserve resources (memory, work) in proportion to the
+# number declared".  The frames are fed to the real server in a CHILD process that has a hard address-space limit, so
+# that a server which does reserve in proportion is reported (MemoryError / kill / stall / measured growth) instead
+# of taking the check down with it.  Declared numbers climb a ladder: small ones first, so that a guilty server is
+# reported by the smallest declared number that shows the growth, and the absurd ones only after the small ones were
+# found innocent.
+
+AS_EXTRA = 1536 * 1024 * 1024      # address space the child may take above what it holds when the probe starts
+WALL = 120                         # seconds; only turns a stall of the child into a report
+CPU_LIMIT = 5.0                    # seconds of CPU for ONE frame of < 150 characters (unchanged tree: < 1 ms)
+LINES_SLACK = 50000                # interpreter line events for one frame (unchanged tree: a few hundred)
+_GUILTY = [None]                   # smallest declared number found guilty by the probe (None: innocent)
+
+
+def alloc_limit(f):
+    return 200 * len(f) + 262144
+
+
+def probe_rungs():
+    """[(declared number, frame)] — small declared numbers first"""
+    out = []
+    for n in (10 ** 3, 10 ** 4, 10 ** 5, 10 ** 6, 10 ** 9, 9999999999):
+        out += [(n, '5%d-["msg"]' % n),
+                (n, '5%d-/a,7["msg",{"_placeholder":true,"num":%d}]' % (n, n - 1)),
+                (n, '5%d-["msg",{"_placeholder":true,"num":0}]' % n),
+                (n, '6%d-1[{"_placeholder":true,"num":0}]' % n),
+                (n, '2%d["msg"]' % n), (n, '3%d[]' % n), (n, '2/a,%d["msg",1]' % n)]
+    big = 10 ** 100 - 1
+    out += [(big, '2%d["msg"]' % big), (big, '3%d[]' % big), (big, '5999999999-%d["msg"]' % (10 ** 99 - 1))]
+    return out
+
+
+def _child():
+    """child process: stdin = {"mode", "rungs": [[declared, frame]..], "as_extra"}; one 'B i' line before and one
+    'E i {..}' line after every rung; stops after the first guilty rung"""
+    import json
+    import resource
+    import sys
+    import threading
+    import time
+    job = json.loads(sys.stdin.read())
+    cfg = S.default_cfg()
+    cfg['fn'] = [['/', 'connect'], ['/', 'msg'], ['/a', 'connect'], ['/a', 'msg']]
+    r = S.Runner(job['mode'], cfg)
+    r.do({'op': 'open', 't': 'W'})
+    r.do({'op': 'frame', 't': 'W', 'text': '0'})
+    r.do({'op': 'frame', 't': 'W', 'text': '2["msg",1]'})          # warm up (imports, caches)
+    vm = 0
+    for line in open('/proc/self/status'):
+        if line.startswith('VmSize:'):
+            vm = int(line.split()[1]) * 1024
+    resource.setrlimit(resource.RLIMIT_AS, (vm + job['as_extra'], vm + job['as_extra']))
+    state = {'lines': 0, 'memerr': False}
+
+    def local(frame, event, arg):
+        if event == 'line':
+            state['lines'] += 1
+        elif event == 'exception' and isinstance(arg[0], type) and issubclass(arg[0], MemoryError):
+            state['memerr'] = True
+        return local
+
+    def tracer(frame, event, arg):
+        return local
+    for i, (n, f) in enumerate(job['rungs']):
+        sys.stdout.write('B %d\n' % i)
+        sys.stdout.flush()
+        t = 'P%d' % i
+        r.do({'op': 'open', 't': t})
+        r.do({'op': 'frame', 't': t, 'text': '0'})
+        r.do({'op': 'frame', 't': t, 'text': '0/a,'})
+        state['lines'], state['memerr'] = 0, False
+        res = {}
+        tracemalloc.start()
+        before = tracemalloc.get_traced_memory()[0]
+        cpu = time.process_time()
+        threading.settrace(tracer)
+        sys.settrace(tracer)
+        try:
+            obs = r.do({'op': 'frame', 't': t, 'text': f})
+            res['exc'] = obs.get('exc')
+        except MemoryError:
+            state['memerr'] = True
+        except Exception as ex:   # noqa
+            res['harness_exc'] = repr(ex)
+        finally:
+            sys.settrace(None)
+            threading.settrace(None)
+        res['cpu'] = time.process_time() - cpu
+        res['allocated'] = tracemalloc.get_traced_memory()[1] - before
+        tracemalloc.stop()
+        res['lines'], res['memerr'] = state['lines'], state['memerr']
+        res['guilty'] = bool(res['memerr'] or res['allocated'] > alloc_limit(f) or res['cpu'] > CPU_LIMIT
+                             or res['lines'] > LINES_SLACK + 200 * len(f))
+        sys.stdout.write('E %d %s\n' % (i, json.dumps(res)))
+        sys.stdout.flush()
+        if res['guilty']:
+            break
+        try:
+            r.do({'op': 'frameval', 't': t, 'v': b'x'})
+            r.do({'op': 'lost', 't': t})
+        except Exception:   # noqa
+            pass
+    sys.stdout.write('END\n')
+    sys.stdout.flush()
+    import os
+    os._exit(0)
+
+
+def run_child(mode, rungs, wall=WALL):
+    """-> [(index, declared, frame, result dict)], result['guilty'] says whether the rung violates the statement;
+    a rung the child did not survive (killed, out of memory, stalled) is reported with result['died']."""
+    import json
+    import os
+    import subprocess
+    import sys
+    p = subprocess.Popen([sys.executable, '-c', 'from harness.props import c12; c12._child()'], cwd=C.ROOT,
+                         stdin=subprocess.PIPE, stdout=subprocess.PIPE, stderr=subprocess.PIPE, env=dict(os.environ))
+    job = json.dumps({'mode': mode, 'rungs': [[n, f] for n, f in rungs], 'as_extra': AS_EXTRA}).encode()
+    how = None
+    try:
+        out, err = p.communicate(job, timeout=wall)
+    except subprocess.TimeoutExpired:
+        p.kill()
+        out, err = p.communicate()
+        how = 'made no progress for the %d s the probe allows (stall); child killed' % wall
+    began, results, ended = None, [], False
+    for line in out.decode('utf-8', 'replace').splitlines():
+        w = line.split(' ', 2)
+        if w[0] == 'B':
+            began = int(w[1])
+        elif w[0] == 'E':
+            i = int(w[1])
+            results.append((i, rungs[i][0], rungs[i][1], json.loads(w[2])))
+            began = None
+        elif w[0] == 'END':
+            ended = True
+    if not ended:
+        if how is None:
+            tail = err.decode('utf-8', 'replace').strip().splitlines()[-1:] or ['']
+            how = 'child process ended with status %r (%s)' % (p.returncode, tail[0][:200])
+        if began is None:
+            # not inside a rung: the harness itself failed, not the property
+            raise RuntimeError('allocation probe child failed outside a probed frame: ' + how)
+        results.append((began, rungs[began][0], rungs[began][1], {'guilty': True, 'died': how}))
+    return results
+
+
+def describe(f, res):
+    if res.get('died'):
+        return 'processing the %d-character frame %r: server process %s' % (len(f), f[:60], res['died'])
+    why = []
+    if res.get('memerr'):
+        why.append('ran out of memory (MemoryError under a %d MB address-space allowance)' % (AS_EXTRA >> 20))
+    if res['allocated'] > alloc_limit(f):
+        why.append('allocated %d bytes' % res['allocated'])
+    if res['lines'] > LINES_SLACK + 200 * len(f):
+        why.append('executed %d interpreter lines' % res['lines'])
+    if res['cpu'] > CPU_LIMIT:
+        why.append('took %.1f s of CPU' % res['cpu'])
+    return 'processing the %d-character frame %r %s' % (len(f), f[:60], ', '.join(why))
+
+
 def alloc_probe(ctx):
     """a declared attachment count / id never makes the server reserve in proportion to the number declared"""
-    worst = 0
-    frames = ['59999999999-["msg"]', '59999999999-/a,7["msg",{"_placeholder":true,"num":9999999998}]',
-              '2' + '9' * 100 + '["msg"]', '3' + '9' * 100 + '[]', '5999999999-' + '9' * 99 + '["msg"]']
+    worst, worst_lines, nr = 0, 0, 0
+    rungs = probe_rungs()
     for mode in ('threading', 'asyncio'):
-        cfg = S.default_cfg()
-        cfg['fn'] = [['/', 'connect'], ['/', 'msg']]
-        r = S.Runner(mode, cfg)
-        try:
-            r.do({'op': 'open', 't': 'P'})
-            r.do({'op': 'frame', 't': 'P', 'text': '0'})
-            for f in frames:
-                r.do({'op': 'open', 't': 'P' + str(len(f))}) if False else None
-                tracemalloc.start()
-                before = tracemalloc.get_traced_memory()[0]
-                r.do({'op': 'frame', 't': 'P', 'text': f})
-                cur, peak = tracemalloc.get_traced_memory()
-                tracemalloc.stop()
-                grew = peak - before
-                worst = max(worst, grew)
-                if grew > 200 * len(f) + 262144:
-                    ctx.violation('oracle', 'processing the %d-character frame %r allocated %d bytes' % (len(f), f[:40], grew),
-                                  {'frame': f, 'allocated': grew, 'mode': mode})
-                r.do({'op': 'frameval', 't': 'P', 'v': b'x'})
-        finally:
-            r.close()
+        for i, n, f, res in run_child(mode, rungs):
+            nr += 1
+            ctx.count('alloc_probe.declared_1e%d' % (len(str(n)) - 1))
+            if res['guilty']:
+                _GUILTY[0] = n if _GUILTY[0] is None else min(_GUILTY[0], n)
+                ctx.violation('oracle', describe(f, res) + ' (declared number %d, %s server; resources reserved '
+                              'in proportion to a number the client merely declares)' % (n, mode),
+                              {'alloc_probe': {'frame': f, 'declared': n, 'mode': mode}, 'measured': res})
+            else:
+                worst = max(worst, res['allocated'])
+                worst_lines = max(worst_lines, res['lines'])
     ctx.coverage['alloc_probe_worst_bytes'] = worst
+    ctx.coverage['alloc_probe_worst_lines'] = worst_lines
+    ctx.coverage['alloc_probe_frames'] = nr
+    ctx.coverage['alloc_probe_rule'] = (
+        'declared attachment counts / ids 10^3..10^6, 10^9, 9999999999 (and 100-digit ids) fed to both server '
+        'families in a child process with RLIMIT_AS = size at start + %d MB; per frame: tracemalloc peak, interpreter '
+        'line events, CPU, MemoryError, death or stall of the child; smallest declared numbers first, the ladder '
+        'stops at the first guilty rung' % (AS_EXTRA >> 20))
+    if _GUILTY[0] is not None:
+        ctx.notes.append('allocation probe: declared number %d already makes the server reserve in proportion; hostile '
+                         'frames declaring numbers >= %d are not fed to the in-process servers of this run'
+                         % (_GUILTY[0], _GUILTY[0]))
+
+
+def declares_at_least(text, limit):
+    """does the frame contain a run of decimal digits whose value is >= limit?"""
+    run = ''
+    for ch in text + ' ':
+        if ch.isdigit():
+            run += ch
+            continue
+        if run:
+            try:
+                if int(run) >= limit:
+                    return True
+            except ValueError:
+                pass
+            run = ''
+    return False
+
+
+def safe_in_process(op):
+    """once the probe has found the server guilty, frames declaring a number at least as large as the smallest
+    guilty one are kept away from the in-process servers (they would take the check down, and the verdict exists)"""
+    if _GUILTY[0] is None:
+        return True
+    if op['op'] == 'frame':
+        return not declares_at_least(op['text'], _GUILTY[0])
+    if op['op'] == 'burst':
+        return all(safe_in_process(o) for o in op['frames'])
+    if op['op'] == 'call':
+        return all(safe_in_process(o) for o in op['during'])
+    return True
 
 
 def run(ctx):
     C.proof_step(ctx, ['handlers are passive (return values only), as in the statement',
                        'allocation is probed with tracemalloc, not modelled'])
     orig = S.representable
+    # first, and in a child process: the only place where absurd declared numbers meet a server that has not yet
+    # been found innocent of reserving in proportion to them
+    _GUILTY[0] = None
+    alloc_probe(ctx)
 
     def rep(op):
+        if not safe_in_process(op):
+            ctx.count('skipped_declares_guilty_number')
+            return False
         return orig(op) and representable_domain(op)
     S.representable = rep
     try:
         S.run_cases(ctx, PROFILE, ctx.scale(120, 2500), 60, oracle=oracle, nontrivial=nontrivial, gen_hook=gen_hook)
     finally:
         S.representable = orig
-    alloc_probe(ctx)
     ctx.coverage['rule'] = ('one offender (first transport) sends fixed hostile frames, grammar mutations of valid packets, odd '
                             'engine.io values and noise, interleaved with well-formed traffic of 2-3 bystanders on the same and '
                             'other namespaces; both server families vs the model, and each scenario re-run without the offender '
@@ -410,4 +611,16 @@ def run(ctx):
 
 
 def replay(ctx, r):
+    rep = r.get('replay', r)
+    if isinstance(rep, dict) and isinstance(rep.get('alloc_probe'), dict):
+        ap = rep['alloc_probe']
+        print('%s server, one connected client sends the %d-character frame %r (declared number %d)'
+              % (ap['mode'], len(ap['frame']), ap['frame'], ap['declared']))
+        out = run_child(ap['mode'], [(ap['declared'], ap['frame'])])
+        i, n, f, res = out[-1]
+        print('  measured:', res)
+        print('  allowed : %d bytes, %d interpreter lines, %.0f s CPU, no MemoryError, child survives'
+              % (alloc_limit(f), LINES_SLACK + 200 * len(f), CPU_LIMIT))
+        print('oracle verdict :', ('VIOLATED — ' + describe(f, res)) if res['guilty'] else 'holds')
+        return 1 if res['guilty'] else 0
     return S.replay_case(ctx, r, oracle=oracle)
